@@ -140,7 +140,7 @@ def merge_semantics(ctx):
             o.attrs["attributes"] = am
             return o
         it.summaries["interface.FeatureDB._feature_returner"] = fr
-        so = Opaque("self", "obj")
+        so = Opaque("self", "FeatureDB")
         cnt = collections.defaultdict(int)
         cnt.update(counters or {})
         so.attrs["_autoincrements"] = cnt
@@ -331,7 +331,7 @@ def r7_r8(ctx):
     def run(func, args):
         log = []
         it = harness(log)
-        so = Opaque("self", "obj")
+        so = Opaque("self", "FeatureDB")
         so.attrs["_autoincrements"] = collections.defaultdict(int)
         try:
             traces = it.run(func, args, self_obj=so)
